@@ -4,6 +4,7 @@ import EvyV.Props.C01
 import EvyV.Props.C01Pratt
 import EvyV.Props.C02
 import EvyV.Props.C02Sound
+import EvyV.Props.C02Stmt
 import EvyV.Props.C03
 import EvyV.Props.C04
 import EvyV.Props.C05
